@@ -338,7 +338,17 @@ func (env *Env) selectField(x Val, name string) (Val, error) {
 			cur = fx.loadField(env.heap, cur.one(), owner, idx)
 			// values stored in the heap are well-typed (lengths are non-negative, integers in range ...)
 			if wt := fx.wellTyped(cur, nil); wt != tTrue && len(env.bound) == 0 {
-				fx.c.assert(wt)
+				fx.assume(wt) // guarded by the reachability of the current program point
+			}
+			if len(env.bound) == 0 && !fx.inTypeInv {
+				// objects reachable from the heap satisfy their representation invariant
+				fx.inTypeInv = true
+				saved := fx.cur
+				if env.heap != nil {
+					fx.assumeTypeInvIn(cur, env.heap)
+				}
+				fx.cur = saved
+				fx.inTypeInv = false
 			}
 			continue
 		}
